@@ -18,6 +18,26 @@ Proof.
 Qed.
 
 (* Name::from_bytes (Name::to_bytes n) = n, field by field *)
+(* ... and for EVERY value the configuration types admit: what reaches the wire is the layout of the fields reduced to
+   their widths - a wide value never spills into a neighbouring field *)
+Lemma name_norm_in_range n : name_in_range (name_norm n) = true.
+Proof.
+  destruct n as [mfr fi ecu fn vs vsi ig]. unfold name_in_range, name_norm. cbn [n_mfr n_finst n_ecu n_func n_vs n_vsi n_ig].
+  pose proof (Z.mod_pos_bound mfr 2048 ltac:(lia)). pose proof (Z.mod_pos_bound fi 32 ltac:(lia)).
+  pose proof (Z.mod_pos_bound ecu 8 ltac:(lia)). pose proof (Z.mod_pos_bound fn 256 ltac:(lia)).
+  pose proof (Z.mod_pos_bound vs 128 ltac:(lia)). pose proof (Z.mod_pos_bound vsi 16 ltac:(lia)).
+  pose proof (Z.mod_pos_bound ig 8 ltac:(lia)). lia.
+Qed.
+Lemma name_bytes_norm n : name_bytes n = name_bytes (name_norm n).
+Proof.
+  destruct n as [mfr fi ecu fn vs vsi ig]. unfold name_bytes, name_norm. cbn [n_mfr n_finst n_ecu n_func n_vs n_vsi n_ig].
+  rewrite !Z.mod_mod by lia.
+  replace ((vs mod 128 * 2) mod 256) with ((vs * 2) mod 256) by lia.
+  reflexivity.
+Qed.
+Theorem name_layout_any : forall n, name_bytes n = le64 (name_value (name_norm n)).
+Proof. intros n. rewrite name_bytes_norm. apply name_layout. apply name_norm_in_range. Qed.
+
 Theorem name_roundtrip : forall n, name_in_range n = true ->
   match name_bytes n with
   | [b0; b1; b2; b3; b4; b5; b6; b7] =>
